@@ -218,6 +218,14 @@ func execC20(r *Run) {
 	if known < 1 || known > n {
 		known = n
 	}
+	// the order in which secondaries are learned (a map iteration in the client)
+	// is a function of the seed and of the set itself (hook H5)
+	client.SimOrderHook = func(s []string) []string {
+		rg := subRng(r.Tape.Seed, uint64(len(s)), "order/"+strings.Join(s, ","))
+		rg.Shuffle(len(s), func(i, j int) { s[i], s[j] = s[j], s[i] })
+		return s
+	}
+	r.OnCleanup(func() { client.SimOrderHook = nil })
 	httpc := &http.Client{Transport: net}
 	opts := []client.HTTPClientOptionF{client.SetHttpClient(httpc), client.SetURLs(urls[0], urls[1:known]...),
 		client.SetReadPreference(pref), client.SetMaxRetries(retries), client.SetTopologyDiscovery(r.Cfg("fix_discovery") == 1),
